@@ -290,7 +290,18 @@ func (sc *c15Scenario) runHandler(s *simrt.Sim) {
 		return
 	}
 	post("main")
+	// the same holds for work that reaches the closed Handler through a MonadIO: a subscription made now, with
+	// SubscribeOn(the closed handler), delivers nothing (the delivery is work submitted after the close returned)
+	lateEff, lateNext := 0, 0
+	lm := fpgo.MonadIONewGenerics(func() int { lateEff++; return 1 }).SubscribeOn(hd)
+	h.Do("main", "Subscribe(SubscribeOn = the closed handler)", nil, func() (interface{}, error) {
+		lm.Subscribe(fpgo.Subscription[int]{OnNext: func(int) { lateNext++ }})
+		return nil, nil
+	})
 	s.Sleep(time.Second)
+	if lateNext != 0 || lateEff != 1 {
+		sc.extra = append(sc.extra, Violation{Clause: "ran-after-close", Fingerprint: "handler:delivery-of-a-MonadIO-through-the-closed-handler", Detail: fmt.Sprintf("after Close returned, Subscribe on a MonadIO with SubscribeOn(closed handler): effect ran %d times (want 1, in line), OnNext ran %d times (want 0: posted to the closed handler, dropped)", lateEff, lateNext)})
+	}
 	sc.checkLateWork(works, "Post")
 }
 
@@ -416,6 +427,33 @@ func (sc *c15Scenario) runPool(s *simrt.Sim) {
 	op := h.Do("main", "IsClosed", nil, func() (interface{}, error) { return pool.IsClosed(), nil })
 	if op.Panic == "" && op.Val != true {
 		sc.extra = append(sc.extra, Violation{Clause: "post-close-result", Fingerprint: "pool.IsClosed", Detail: "IsClosed() false after Close returned"})
+	}
+	if !sc.CloseQueue {
+		// the job queue was left open: its owner hands it to a second pool right away, while workers of the closed pool
+		// may still be parked on its channel - whoever takes a job the second pool accepted runs it, exactly once
+		var pool2 *worker.DefaultWorkerPool
+		s.NoPreempt(func() {
+			pool2 = worker.NewDefaultWorkerPool(q, nil)
+			pool2.SetWorkerSizeMaximum(2).SetWorkerSizeStandBy(1).SetWorkerBatchSize(1).
+				SetSpawnWorkerDuration(time.Millisecond).SetWorkerExpiryDuration(20 * time.Millisecond).SetScheduleRetryInterval(time.Millisecond)
+		})
+		ran := make([]int, 3)
+		acc := make([]bool, 3)
+		for i := range ran {
+			i := i
+			op := h.Do("main", "second-pool.ScheduleWithTimeout", i, func() (interface{}, error) {
+				return nil, pool2.ScheduleWithTimeout(func() { ran[i]++ }, time.Second)
+			})
+			acc[i] = op.Panic == "" && op.Err == nil
+		}
+		s.Sleep(2 * time.Second)
+		for i := range ran {
+			if acc[i] && ran[i] != 1 {
+				sc.extra = append(sc.extra, Violation{Clause: "queue-reuse", Fingerprint: "pool:job-of-a-second-pool-on-the-same-queue-ran-" + fmt.Sprint(min3(ran[i])) + "-times", Detail: fmt.Sprintf("the first pool was closed with its job queue left open; a second pool on the same queue accepted job %d, which ran %d times (want once); first pool max=%d standby=%d", i, ran[i], sc.PoolMax, sc.PoolStandBy)})
+			}
+		}
+		h.Do("main", "second-pool.Close", nil, func() (interface{}, error) { pool2.SetIsJobQueueClosedWhenClose(false).Close(); return nil, nil })
+		sc.probes["job-queue-reused-by-a-second-pool"]++
 	}
 	// let the workers notice the close (they re-check the flag when their idle timer fires)
 	s.Sleep(200 * time.Millisecond)
